@@ -771,6 +771,9 @@ funcexpr(struct func *f, struct expr *e)
 			t = arg->type;
 			funcinst(f, IARG, qbetype(t).base, argvals[i], t->value);
 		}
+		/* a variadic function is called as such also when no variable arguments are given */
+		if (functype->u.func.isvararg && i == functype->u.func.nparam)
+			funcinst(f, IVARARG, 0, NULL, NULL);
 		e = e->base;
 		if (e->kind == EXPRUNARY && e->op == TBAND) {
 			e = e->base;
@@ -1256,7 +1259,8 @@ emitinst(struct inst **instp, struct inst **instend)
 		for (first = 1; instp != instend; ++instp) {
 			inst = *instp;
 			if (inst->kind == IVARARG) {
-				fputs(", ...", stdout);
+				fputs(first ? "..." : ", ...", stdout);
+				first = 0;
 				continue;
 			}
 			if (inst->kind != IARG)
